@@ -3,6 +3,7 @@ package main
 import (
 	"errors"
 	"fmt"
+	"reflect"
 	"sort"
 	"strings"
 
@@ -94,16 +95,19 @@ type Case struct {
 	Prop bool `json:"propagate_unscoped"`
 	// Nested: the handle is db.Unscoped().Session(&Session{NewDB:true}) - Unscoped
 	// survives only with PropagateUnscoped
-	Nested   bool     `json:"nested,omitempty"`
+	Nested bool `json:"nested,omitempty"`
+	// Shape: 0 = the soft-delete field is a plain value field; otherwise the
+	// variant number of another shape of the soft-delete model (see shapeName)
+	Shape    int      `json:"shape,omitempty"`
 	Labels   []string `json:"unit_labels,omitempty"`
 	Readable string   `json:"readable,omitempty"`
 }
 
 func (c Case) key() string {
-	return fmt.Sprintf("%v|%d|%s|%v|%v", c.Chain, c.Inline, c.Fin, c.Prop, c.Nested)
+	return fmt.Sprintf("%v|%d|%s|%v|%v|%d", c.Chain, c.Inline, c.Fin, c.Prop, c.Nested, c.Shape)
 }
 
-var units [3][]*cg.Unit // per variant (only the model-struct units differ)
+var units [nVariants][]*cg.Unit // per variant (only the model-struct units differ)
 
 func (c Case) String() string {
 	us := units[vSoft]
@@ -166,6 +170,9 @@ func (c Case) String() string {
 	}
 	if c.Nested {
 		s += "  [handle = db.Unscoped().Session(NewDB)]"
+	}
+	if c.Shape != 0 {
+		s += "  [Soft = " + vName[c.Shape] + ": " + shapeName[c.Shape] + "]"
 	}
 	return s
 }
@@ -239,7 +246,7 @@ func classify(err error) (string, string) {
 
 type worker struct {
 	envs     [2]*h.Env // PropagateUnscoped off / on
-	pristine [2][3]map[int]string
+	pristine [2][nVariants]map[int]string
 }
 
 func newWorker() *worker {
@@ -254,8 +261,8 @@ func newWorker() *worker {
 		}
 		seed(e)
 		w.envs[i] = e
-		for v := 0; v < 3; v++ {
-			snap, err := snapshot(e.SQL, vTable[v])
+		for v := 0; v < nVariants; v++ {
+			snap, err := snapshotDel(e.SQL, vTable[v], vDelCol[v])
 			if err != nil {
 				panic(err)
 			}
@@ -319,6 +326,14 @@ func updStruct[M rowM]() interface{} {
 		return Soft{M: 7}
 	case Plain:
 		return Plain{M: 7}
+	case SoftPtr:
+		return SoftPtr{M: 7}
+	case SoftEmb:
+		return SoftEmb{M: 7}
+	case SoftPre:
+		return SoftPre{M: 7}
+	case SoftCol:
+		return SoftCol{M: 7}
 	}
 	return PlainAll{M: 7}
 }
@@ -406,15 +421,7 @@ func runRead[M rowM](x *xctx) (o obs) {
 		set(tx)
 		var ps []string
 		for _, r := range refs {
-			j := 0
-			switch x.v {
-			case vSoft:
-				j = r.Soft.ID
-			case vPlain:
-				j = r.Plain.ID
-			default:
-				j = r.PlainAll.ID
-			}
+			j := int(reflect.ValueOf(r).FieldByName(vName[x.v]).FieldByName("ID").Int())
 			ps = append(ps, fmt.Sprintf("%03d>%d", r.ID, j))
 			if j != 0 {
 				o.ids = append(o.ids, j)
@@ -435,14 +442,11 @@ func runRead[M rowM](x *xctx) (o obs) {
 		var ps []string
 		for _, hd := range hs {
 			var ids []int
-			switch x.v {
-			case vSoft:
-				ids = keys(hd.Softs)
-			case vPlain:
-				ids = keys(hd.Plains)
-			default:
-				ids = keys(hd.PlainAlls)
+			kids := reflect.ValueOf(hd).FieldByName(vMany[x.v])
+			for i := 0; i < kids.Len(); i++ {
+				ids = append(ids, int(kids.Index(i).FieldByName("ID").Int()))
 			}
+			sort.Ints(ids)
 			o.ids = append(o.ids, ids...)
 			ps = append(ps, fmt.Sprintf("h%d%v", hd.ID, ids))
 		}
@@ -501,13 +505,13 @@ func runWrite[M rowM](x *xctx) (o obs) {
 		}
 		o.err, o.errMsg = classify(res.Error)
 		o.n = res.RowsAffected
-		after, err := snapshot(q, table)
+		after, err := snapshotDel(q, table, vDelCol[x.v])
 		if err != nil {
 			o.extra = append(o.extra, "reading back failed: "+err.Error())
 			return
 		}
 		d := diffSnap(before, after)
-		softScoped := x.v == vSoft && !x.unscoped && !(x.c.Nested && x.c.Prop)
+		softScoped := isSoft(x.v) && !x.unscoped && !(x.c.Nested && x.c.Prop)
 		if len(d.other) > 0 {
 			o.extra = append(o.extra, "rows changed in columns the operation must not touch: "+strings.Join(d.other, "; "))
 		}
@@ -542,7 +546,7 @@ func runWrite[M rowM](x *xctx) (o obs) {
 			if x.f == fDeleteTwice {
 				res2 := x.chain(x.mk()).Delete(new(M))
 				c2, m2 := classify(res2.Error)
-				after2, err := snapshot(q, table)
+				after2, err := snapshotDel(q, table, vDelCol[x.v])
 				if err != nil {
 					o.extra = append(o.extra, "reading back failed: "+err.Error())
 					return
@@ -564,7 +568,7 @@ func runWrite[M rowM](x *xctx) (o obs) {
 		}
 	}()
 	// the rollback must have restored the table
-	now, err := snapshot(e.SQL, table)
+	now, err := snapshotDel(e.SQL, table, vDelCol[x.v])
 	restored := err == nil && len(now) == len(before)
 	if restored {
 		for id, r := range before {
@@ -594,20 +598,27 @@ func (w *worker) execOne(c Case, v int, unscoped bool) (o obs) {
 			o.panicMsg = fmt.Sprint(r)
 		}
 	}()
-	if fins[x.f].write {
-		switch v {
-		case vSoft:
-			return runWrite[Soft](x)
-		case vPlain:
-			return runWrite[Plain](x)
-		}
-		return runWrite[PlainAll](x)
-	}
+	wr := fins[x.f].write
 	switch v {
 	case vSoft:
-		return runRead[Soft](x)
+		return dispatch[Soft](x, wr)
 	case vPlain:
-		return runRead[Plain](x)
+		return dispatch[Plain](x, wr)
+	case vSoftPtr:
+		return dispatch[SoftPtr](x, wr)
+	case vSoftEmb:
+		return dispatch[SoftEmb](x, wr)
+	case vSoftPre:
+		return dispatch[SoftPre](x, wr)
+	case vSoftCol:
+		return dispatch[SoftCol](x, wr)
 	}
-	return runRead[PlainAll](x)
+	return dispatch[PlainAll](x, wr)
+}
+
+func dispatch[M rowM](x *xctx, write bool) obs {
+	if write {
+		return runWrite[M](x)
+	}
+	return runRead[M](x)
 }
